@@ -43,11 +43,23 @@ fn emit_int(sink: &mut Sink, cfg: &str, lit: &str, tag: &str) {
         if let Ok(x) = i64::try_from(v) { sink.case("iprint", &[cfg, &h], &hexf(serde_json::to_string(&x).unwrap().as_bytes()), "print:i64", true); }
         if let Ok(x) = u64::try_from(v) { sink.case("iprint", &[cfg, &h], &hexf(serde_json::to_string(&x).unwrap().as_bytes()), "print:u64", true); }
         sink.case("iprint", &[cfg, &h], &hexf(serde_json::to_string(&v).unwrap().as_bytes()), "print:i128", true);
+        // the same integer INTO a Value: to_value of the 128-bit types and Number::from_i128 / from_u128 are exact or refuse
+        // (never wrap, never change kind: the Number must equal the one its own digits parse to)
+        let tv = |r: Result<Value, serde_json::Error>| match r { Ok(v) => format!("V{}", enc(&v)), Err(_) => "ERR".to_string() };
+        let num = |n: Option<Number>| match n {
+            None => "N".to_string(),
+            Some(n) => { let back: Value = serde_json::from_str(&n.to_string()).unwrap_or(Value::Null); format!("{}:{}", n, if Value::Number(n.clone()) == back { "=" } else { "!" }) }
+        };
+        let f1 = g(|| tv(serde_json::to_value(&v)));
+        let (f2, f4) = if v >= 0 { (g(|| tv(serde_json::to_value(&(v as u128)))), g(|| num(Number::from_u128(v as u128)))) } else { ("-".to_string(), "-".to_string()) };
+        let f3 = g(|| num(Number::from_i128(v)));
+        sink.case("ival", &[cfg, &h], &format!("{}|{}|{}|{}", f1, f2, f3, f4), "ival", true);
     }
 }
 fn opt<T: std::fmt::Display>(x: Option<T>) -> String { x.map(|v| v.to_string()).unwrap_or("N".into()) }
 
 pub fn replay(sink: &mut Sink, toks: &[&str]) {
+    // (op `ival` is emitted next to `iprint` by the literal sweep: replay an `acc` / `iprint` line of the same literal)
     if toks.len() < 3 { return; }
     let cfg = cfg_tag();
     let lit = String::from_utf8(unhex(toks[toks.len() - 1])).unwrap_or_default();
